@@ -135,6 +135,32 @@ def pipeline_exit_cases(run):
                               % (kind, where, k, pol[0], pol[1], fid, p.results), case)
                 break
 
+    # a tee under the policy "obey error exits only": the first consumer leaves cleanly (its announcement is heard and, as the
+    # policy says, ignored), later the second one fails - that announcement is obeyed and the whole pipeline ends
+    for it in range(run.n(6, 80)):
+        k1 = rng.randint(2, 5)
+        k2 = k1 + rng.randint(3, 12)
+        first_kind = rng.choice(['clean', 'clean', 'error'])
+        pol = ('all', 'error') if first_kind == 'clean' else ('all', 'clean')
+        delay = rng.choice([(0, 0), (0, 30), (20, 90)])
+        seed = rng.randrange(10 ** 6)
+        a0 = pipes.addr(0)
+        specs = [dict(id='src', kind='src', n=10 ** 6, outputs=a0[0], period=0.02),
+                 dict(id='d1', kind='sink', sources=a0[1]),
+                 dict(id='d2', kind='sink', sources=a0[1])]
+        specs[1]['exit_at' if first_kind == 'clean' else 'raise_at'] = k1
+        specs[2]['raise_at' if first_kind == 'clean' else 'exit_at'] = k2
+        case = dict(family='tee-two-exits', first=first_kind, at=[k1, k2], policy=pol, delay_ms=delay, seed=seed)
+        p = pipes.Pipeline(specs, seed=seed, delay_ms=delay, prop_exit=pol[0], obey_exit=pol[1])
+        p.run(120, max_steps=400000)
+        run.seen(('pexit2', repr(case)))
+        run.count('pipeline-exit:two-exits first=%s' % first_kind)
+        res = p.results.get(('src', 0))
+        if res is None or res == 'killed':
+            run.violation('pipeline:not-terminated filter=src two-exits first=%s policy=%s/%s' % (first_kind, pol[0], pol[1]),
+                          'tee: d1 announced a %s exit after %d frames (not to be obeyed under obey=%s), d2 the other kind after %d frames (to be obeyed): '
+                          'the source was still running 120 s later; results %s' % (first_kind, k1, pol[1], k2, p.results), case)
+
 
 def main():
     run = vlib.Run('C08')
